@@ -60,6 +60,12 @@ EXPLANATION = (
     'the selection is empty); (D7) the rectangular fast path keeps the element dimensions of the flat data '
     '(... + self._data.shape[1:]); the row container is not built by np.array(<rows>, dtype=object), whose rank '
     'depends on whether the rows happen to be equally long. '
+    'Third wave: python lists are read elementwise (comprehension, append loop, fused loop, zip / enumerate / '
+    'range(len()) re-indexing all denote "position k holds f(D[k], k)"), so (D5) compares the row / column of ONE flat '
+    'index whatever loop shape computes it; a name that is still a list under construction, a helper the front end did '
+    'not inline, an extra guard or a rebinding the rule cannot evaluate give analysis-incomplete, not a violation; (D2) the '
+    '(start, stop, step) triple of slice.indices reaches range()/arange() in this order; (D3) an argument that spells out a '
+    'constant default and data[(x,)] vs data[x] are one spelling. '
     'Equality with the list-of-rows model for every index expression is not '
     'decided.')
 
@@ -87,8 +93,8 @@ def _pure(e):
                 if cn.startswith(('np.', 'numpy.', 'math.')):
                     if cn in IMPURE_NP or '.random.' in cn:
                         return False
-                elif n.func.attr not in PURE_METHODS:
-                    return False
+                elif n.func.attr not in PURE_METHODS and not (n.func.attr == 'indices' and len(n.args) == 1 and not n.keywords):
+                    return False          # (<slice>.indices(n) is the only method of that name: pure)
             else:
                 return False
     return True
@@ -242,6 +248,33 @@ def _atoms(conds):
     return out
 
 
+def _xatoms(fi, conds):
+    """_atoms after expansion of temporaries: a condition kept under a name
+    (`rect = lengths is not None and np.all(...)`; `if rect:`) is split into
+    its conjuncts again; bool(<test>) is <test> where a truth value is asked."""
+    def unbool(e):
+        while isinstance(e, ast.Call) and call_name(e) == 'bool' and len(e.args) == 1 and not e.keywords:
+            e = e.args[0]
+        if isinstance(e, ast.BoolOp):
+            e = ast.copy_location(ast.BoolOp(op=e.op, values=[unbool(x) for x in e.values]), e)
+        elif isinstance(e, ast.UnaryOp) and isinstance(e.op, ast.Not):
+            e = ast.copy_location(ast.UnaryOp(op=e.op, operand=unbool(e.operand)), e)
+        return e
+    out = []
+    for a, node in _atoms(conds):
+        e = _atom_expr(a)
+        x = unbool(_expand(fi, e))
+        if u(x) == u(e):
+            out.append((a, node))
+            continue
+        cs = conjuncts(x, True)
+        if cs is None:
+            out.append((('expr', x, True), node))
+        else:
+            out += [(c, node) for c in cs]
+    return out
+
+
 def _bind_call(mod, call):
     """{parameter name: argument} of a call to a module-level function of the
     analysed module (positional and keyword arguments alike)."""
@@ -308,6 +341,301 @@ def _increments(fn, name):
 
 
 # ---------------------------------------------------------------------------
+# elementwise view of python lists: append loops, comprehensions, fused loops,
+# zip / enumerate / range(len()) re-indexing all denote "position k holds
+# f(D[k], k)" for a domain sequence D.  (candidate for a shared module)
+
+ELEM, POS = 'ELEM__', 'POS__'
+_LEAF = (ast.expr_context, ast.operator, ast.unaryop, ast.boolop, ast.cmpop)
+_KEEP_ATTRS = ('lineno', 'col_offset', 'end_lineno', 'end_col_offset', '_from_np_array', '_canon_origin')
+
+
+def _subst(e, env):
+    """e with the loads of the names in env replaced by env[name].  Sub-trees
+    without a replaced name are the ORIGINAL nodes (def-use queries on them
+    keep working); names re-bound by an inner comprehension are left alone."""
+    if not env:
+        return e
+    if isinstance(e, ast.Name):
+        return env[e.id] if isinstance(e.ctx, ast.Load) and e.id in env else e
+    if not isinstance(e, ast.AST) or isinstance(e, _LEAF):
+        return e
+    if isinstance(e, (ast.ListComp, ast.SetComp, ast.GeneratorExp, ast.DictComp)):
+        inner = dict(env)
+        gens = []
+        changed = False
+        for g in e.generators:
+            it = _subst(g.iter, inner)
+            for t in ast.walk(g.target):
+                if isinstance(t, ast.Name):
+                    inner.pop(t.id, None)
+            ifs = [_subst(c, inner) for c in g.ifs]
+            changed = changed or it is not g.iter or any(a is not b for a, b in zip(ifs, g.ifs))
+            gens.append(ast.comprehension(target=g.target, iter=it, ifs=ifs, is_async=g.is_async))
+        parts = {f: _subst(getattr(e, f), inner) for f in e._fields if f != 'generators'}
+        if not changed and all(parts[f] is getattr(e, f) for f in parts):
+            return e
+        new = type(e)(generators=gens, **parts)
+        return ast.copy_location(new, e)
+    vals = {}
+    changed = False
+    for f in e._fields:
+        val = getattr(e, f, None)
+        if isinstance(val, list):
+            nv = [_subst(x, env) for x in val]
+            changed = changed or any(a is not b for a, b in zip(nv, val))
+        elif isinstance(val, ast.AST):
+            nv = _subst(val, env)
+            changed = changed or nv is not val
+        else:
+            nv = val
+        vals[f] = nv
+    if not changed:
+        return e
+    new = type(e)(**vals)
+    for a in _KEEP_ATTRS:
+        if hasattr(e, a):
+            setattr(new, a, getattr(e, a))
+    return new
+
+
+def _peel(fi, e, depth=6):
+    """Follow pure single-definition temporaries; the result is an ORIGINAL node."""
+    while depth > 0 and isinstance(e, ast.Name):
+        v = _temp_value(fi, e)
+        if v is None:
+            break
+        e, depth = v, depth - 1
+    return e
+
+
+def _enclosing_loops(mod, n, fn):
+    out = []
+    p = mod.parent.get(n)
+    while p is not None and p is not fn:
+        if isinstance(p, (ast.For, ast.While, ast.AsyncFor)):
+            out.append(p)
+        p = mod.parent.get(p)
+    return out
+
+
+def _is_append(s):
+    """`X.append(<one argument>)` as a statement -> (X, argument)."""
+    if isinstance(s, ast.Expr) and isinstance(s.value, ast.Call) and isinstance(s.value.func, ast.Attribute) and \
+            s.value.func.attr == 'append' and isinstance(s.value.func.value, ast.Name) and len(s.value.args) == 1 and \
+            not s.value.keywords and not isinstance(s.value.args[0], ast.Starred):
+        return s.value.func.value.id, s.value.args[0]
+    return None
+
+
+def _accumulated_list(fi, name_node):
+    """A use of a list N that is built by ONE append in ONE for loop
+
+         N = []                          (the only definition reaching the use and the append)
+         for T in IT:                    (no else; the body consists of `t = <pure>` and `<list>.append(<pure>)` only,
+             ...                          so it has no break / continue / return and mutates nothing but the lists)
+             N.append(E)
+         ... use of N ...                (dominated by the loop, outside it)
+
+    denotes the comprehension [E' for T in IT], E' = E with the temporaries of
+    the body substituted in order.  Other lists filled by the same loop do not
+    matter (loop fusion) as long as E' does not read them.  -> ListComp or None."""
+    mod = fi.mod
+    if not (isinstance(name_node, ast.Name) and isinstance(name_node.ctx, ast.Load)):
+        return None
+    N = name_node.id
+    try:
+        defs = fi.defs_of_use(name_node)
+        use = fi.stmt(name_node)
+    except Exception:
+        return None
+    if use is None or len(defs) != 1:
+        return None
+    site = next(iter(defs))
+    if not (isinstance(site, ast.Assign) and len(site.targets) == 1 and isinstance(site.targets[0], ast.Name)):
+        return None
+    v = site.value
+    if not ((isinstance(v, ast.List) and not v.elts) or
+            (isinstance(v, ast.Call) and call_name(v) == 'list' and not v.args and not v.keywords)):
+        return None
+    muts = fi._mutated_in_place(N)
+    if len(muts) != 1 or _is_append(muts[0]) is None or _is_append(muts[0])[0] != N:
+        return None
+    ap = muts[0]
+    loop = mod.parent.get(ap)
+    if not isinstance(loop, ast.For) or loop.orelse or not any(ap is s for s in loop.body):
+        return None
+    if fi.rd.defs_at(ap, N) != defs or use is loop or fi._within(use, loop) or not fi.cfg.dominates(loop, use):
+        return None
+    if [id(x) for x in _enclosing_loops(mod, loop, fi.fn)] != [id(x) for x in _enclosing_loops(mod, site, fi.fn)]:
+        return None
+    # no alias of the list, no other read of it inside the loop
+    for s in walk_local(fi.fn):
+        if isinstance(s, ast.Assign) and isinstance(s.value, ast.Name) and s.value.id == N:
+            return None
+    for x in walk_local(loop):
+        if isinstance(x, ast.Name) and x.id == N and x is not ap.value.func.value:
+            return None
+    assigned, appended = set(), set()
+    for s in loop.body:
+        a = _is_append(s)
+        if a is not None and _pure(a[1]):
+            appended.add(a[0])
+        elif isinstance(s, ast.Assign) and len(s.targets) == 1 and isinstance(s.targets[0], ast.Name) and _pure(s.value):
+            assigned.add(s.targets[0].id)
+        else:
+            return None
+    env = {}
+    E = None
+    for s in loop.body:
+        if s is ap:
+            E = _subst(ap.value.args[0], env)
+            break
+        if isinstance(s, ast.Assign):
+            env[s.targets[0].id] = _subst(s.value, env)
+    if E is None:
+        return None
+    tn = set(target_names(loop.target))
+    for x in ast.walk(E):
+        if isinstance(x, ast.Name) and isinstance(x.ctx, ast.Load) and (x.id in appended or (x.id in assigned and x.id not in tn)):
+            return None         # reads a list under construction / a value carried over from the previous iteration
+    if tn & assigned:
+        return None
+    comp = ast.ListComp(elt=E, generators=[ast.comprehension(target=loop.target, iter=loop.iter, ifs=[], is_async=0)])
+    return ast.copy_location(comp, ap)
+
+
+def _same_seq(fi, a, b):
+    """Two (original) expressions denote the same sequence: equal after expansion."""
+    try:
+        return _xu(fi, a) == _xu(fi, b)
+    except Exception:
+        return False
+
+
+def _elementwise(fi, e, depth=4):
+    """(D, f) such that the python sequence denoted by e has len(D) entries and
+    holds f at position k, where f is an expression over ELEM (= D[k]) and POS
+    (= k); None when e is not a list built elementwise.  Recognised builders:
+    [g(x) for x in D]; [g(k) for k in range(len(D))]; enumerate(Y) / zip(Y, Z)
+    over sequences with the same domain (Y[k] is Y's own element function);
+    append loops (_accumulated_list); list()/tuple() of those; an integer-typed
+    np.array()/np.asarray() of such a list (same entries, as index values).
+    D and the free names of f are ORIGINAL nodes."""
+    if depth <= 0:
+        return None
+    e = _peel(fi, e)
+    for _ in range(3):
+        if isinstance(e, ast.Call) and call_name(e) in ('list', 'tuple') and len(e.args) == 1 and not e.keywords and \
+                not isinstance(e.args[0], ast.Starred):
+            e = _peel(fi, e.args[0])
+            continue
+        inner = _strip_array(e)
+        if inner is None:
+            break
+        e = _peel(fi, inner)
+    if isinstance(e, ast.Name):
+        lc = _accumulated_list(fi, e)
+    elif isinstance(e, (ast.ListComp, ast.GeneratorExp)):
+        lc = e
+    else:
+        return None
+    if lc is None or len(lc.generators) != 1 or lc.generators[0].ifs or lc.generators[0].is_async:
+        return None
+    g = lc.generators[0]
+    it, tgt = _peel(fi, g.iter), g.target
+    E_, P_ = ast.Name(id=ELEM, ctx=ast.Load()), ast.Name(id=POS, ctx=ast.Load())
+
+    def seq(x):
+        r = _elementwise(fi, x, depth - 1)
+        return r if r is not None else (_peel(fi, x), E_)
+
+    def names(t, n):
+        return isinstance(t, (ast.Tuple, ast.List)) and len(t.elts) == n and all(isinstance(x, ast.Name) for x in t.elts)
+
+    env = {}
+    cn = call_name(it) if isinstance(it, ast.Call) else None
+    if cn == 'range' and len(it.args) == 1 and not it.keywords and isinstance(tgt, ast.Name):
+        a = _peel(fi, it.args[0])
+        Y = None
+        for pat in ('len(_Y)', '_Y.shape[0]', '_Y.size'):
+            b = match(pat, a, canonical=False)
+            if b is not None:
+                Y = b['_Y']
+                break
+        if Y is None:
+            return None
+        dom = seq(Y)[0]
+        env[tgt.id] = P_
+    elif cn == 'enumerate' and len(it.args) == 1 and not it.keywords and names(tgt, 2):
+        dom, f = seq(it.args[0])
+        env[tgt.elts[0].id], env[tgt.elts[1].id] = P_, f
+    elif cn == 'zip' and it.args and not it.keywords and names(tgt, len(it.args)) and \
+            not any(isinstance(a, ast.Starred) for a in it.args):
+        parts = [seq(a) for a in it.args]
+        dom = parts[0][0]
+        if not all(_same_seq(fi, dom, p[0]) for p in parts[1:]):
+            return None
+        for t, p in zip(tgt.elts, parts):
+            env[t.id] = p[1]
+    elif isinstance(tgt, ast.Name) and cn not in ('enumerate', 'zip', 'reversed', 'sorted', 'map', 'filter'):
+        dom, f = seq(it)
+        env[tgt.id] = f
+    else:
+        return None
+
+    def reindex(x):
+        # Y[POS] -> element function of Y, for Y over the same domain
+        if isinstance(x, ast.Subscript) and isinstance(x.slice, ast.Name) and x.slice.id == POS and isinstance(x.ctx, ast.Load):
+            d2, f2 = seq(x.value)
+            if _same_seq(fi, dom, d2):
+                return f2
+        if not isinstance(x, ast.AST) or isinstance(x, _LEAF) or isinstance(x, ast.Name):
+            return x
+        vals, changed = {}, False
+        for fld in x._fields:
+            val = getattr(x, fld, None)
+            if isinstance(val, list):
+                nv = [reindex(y) for y in val]
+                changed = changed or any(p is not q for p, q in zip(nv, val))
+            elif isinstance(val, ast.AST):
+                nv = reindex(val)
+                changed = changed or nv is not val
+            else:
+                nv = val
+            vals[fld] = nv
+        if not changed:
+            return x
+        new = type(x)(**vals)
+        for a_ in _KEEP_ATTRS:
+            if hasattr(x, a_):
+                setattr(new, a_, getattr(x, a_))
+        return new
+    return dom, reindex(_subst(lc.elt, env))
+
+
+def _accumulators(fi, fn):
+    """Local containers filled by in-place stores (N = [] / np.empty(...) ... then
+    N.append / N[i] = ...): what such a name holds at a use is not a function
+    of the expression it occurs in, so an expression over it that no accepted
+    form matches is 'not seen through', never 'a different computation'."""
+    out = set()
+    for s in walk_local(fn):
+        if isinstance(s, ast.Assign) and len(s.targets) == 1 and isinstance(s.targets[0], ast.Name):
+            v = s.value
+            fresh = (isinstance(v, (ast.List, ast.Dict, ast.Set)) and not (getattr(v, 'elts', None) or getattr(v, 'keys', None))) or \
+                (isinstance(v, ast.Call) and call_name(v) in ('list', 'dict', 'set', 'collections.deque', 'deque', 'np.empty', 'np.zeros',
+                                                               'np.ones', 'np.full', 'np.empty_like', 'np.zeros_like', 'np.ones_like'))
+            if fresh and fi._mutated_in_place(s.targets[0].id):
+                out.add(s.targets[0].id)
+    return out
+
+
+def _value_scope(fi, fn):
+    return (_local_names(fn) - _accumulators(fi, fn)) | {ELEM, POS}
+
+
+# ---------------------------------------------------------------------------
 # D1
 
 def d1_bounds(ck, mod):
@@ -324,13 +652,13 @@ def d1_bounds(ck, mod):
     d = param_default(fn, EC)
     ck.check(const_value(d) is True, rule + '.default', mod, fn, F, '%s=%s' % (EC, u(d)),
              'bounds checking is on by default', 'error_check must default to True')
-    scope = _local_names(fn)
+    scope = _value_scope(fi, fn)
 
     # --- the flat index is what is returned: starts[row] + column
     R = Cn = None
     rets = [r for r in returns_of(fn) if r.value is not None]
     for r in rets:
-        v = _classify(_expand(fi, r.value), ['(%s[_R] + _C,)' % S, '(_C + %s[_R],)' % S, '[%s[_R] + _C]' % S, '[_C + %s[_R]]' % S], scope)
+        v = _classify(_expand(fi, r.value), ['(%s[_R] + _C,)' % S, '(_C + %s[_R],)' % S], scope)
         ck.decide(v, rule + '.flat', mod, r, F, _xu(fi, r.value), 'flat index = start of the row + column',
                   'flat index must be starts[row] + column')
         if v[0] == 'match' and isinstance(v[1]['_R'], ast.Name) and isinstance(v[1]['_C'], ast.Name):
@@ -351,7 +679,7 @@ def d1_bounds(ck, mod):
         conds = _path_conditions(mod, r, fn)
         extra = []
         hit = None
-        for a, node in _atoms(conds):
+        for a, node in _xatoms(fi, conds):
             if isinstance(a, Cmp) and a.op is ast.IsNot and u(a.lhs) == L and const_value(a.rhs, 1) is None:
                 continue
             if not isinstance(a, Cmp) and a[2] is True and u(a[1]) == EC:
@@ -379,12 +707,44 @@ def d1_bounds(ck, mod):
         elif cand_far is not None:
             ck.missing(rule + '.test', 'condition of the IndexError in _convert_from_2d not recognised: %s' % u(_atom_expr(cand_far[0]))[:120])
         else:
-            ck.bad(rule + '.test', mod, fn, F, 'lengths[row] <= column', bad_test + ' (no such test guards an IndexError)')
+            # the lengths handed to a helper of the module that the front end did not inline: the test may live there
+            helpers = [c for c in calls_in(fn) if (call_name(c) or '') in mod.functions and call_name(c) != '_handle_negative_indices'
+                       and L in names_loaded(c)]
+            if helpers and not raises:
+                ck.missing(rule + '.test', 'no IndexError is raised in _convert_from_2d itself; the row lengths are handed to %s, '
+                           'which the rule does not follow' % u(helpers[0])[:100])
+            else:
+                ck.bad(rule + '.test', mod, fn, F, 'lengths[row] <= column', bad_test + ' (no such test guards an IndexError)')
         return
     g, outer, extra, r = guard
     ck.ok(rule + '.test', mod, g, _xu(fi, g.test)[:200], 'an index at or beyond the row length raises IndexError')
     # the test is evaluated on every path to the flat index, with the same row / column values
-    same = all(fi.rd.defs_at(g, nm) == fi.rd.defs_at(x, nm) and len(fi.rd.defs_at(g, nm)) == 1 for x in rets for nm in (R, Cn))
+    # (a rebinding `x = np.asarray(x)` / `x = x.copy()` / `x = x.astype(int)` of the tested value keeps the value)
+    same, rebound_opaque = True, False
+    for x in rets:
+        for nm in (R, Cn):
+            dg, dx = fi.rd.defs_at(g, nm), fi.rd.defs_at(x, nm)
+            if dg == dx and len(dg) == 1:
+                continue
+            for site in dx - dg:
+                val = fi.def_value(site, nm) if site not in ('PARAM', 'UNBOUND') else None
+                inner = _strip_array(canon(val)) if val is not None else None
+                if inner is None and val is not None and match('_X.astype(int)', val) is not None:
+                    inner = val.func.value
+                if len(dg) == 1 and isinstance(inner, ast.Name) and inner.id == nm and fi.rd.defs_at(site, nm) == dg:
+                    continue
+                same = False
+                if val is None or not _pure(val) or not all(y.id in scope | _NEUTRAL for y in ast.walk(val) if isinstance(y, ast.Name)):
+                    rebound_opaque = True
+            if not (dx - dg) and dg != dx:
+                same, rebound_opaque = False, True
+
+    def harmless(a):
+        # "there is at least one index": without one the bounds test is vacuous anyway
+        t = u(canon(_expand(fi, _atom_expr(a))))
+        return any(t == C(f % nm) for nm in (R, Cn) for f in ('%s.size', '0 < %s.size', '%s.size != 0', '0 < len(%s)', 'len(%s) != 0', 'len(%s)',
+                                                               '0 < %s.shape[0]', '1 <= %s.size', '1 <= len(%s)'))
+    extra = [x for x in extra if x[2][0] != 'match' and not harmless(x[0])]
     def off(a):
         # a condition under which checking is off by contract
         return (isinstance(a, Cmp) and a.op is ast.Is and u(a.lhs) == L and const_value(a.rhs, 1) is None) or \
@@ -408,9 +768,16 @@ def d1_bounds(ck, mod):
     reach = [True if fi.cfg.dominates(outer, x) else only_unchecked(x) for x in rets]
     dom = all(x is True for x in reach)
     weak = [x for x, k in zip(rets, reach) if k == 'weak']
-    if extra:
-        ck.bad(rule + '.dominates', mod, extra[0][1], F, u(_atom_expr(extra[0][0]))[:200],
+    if extra and all(x[2][0] == 'far' for x in extra):
+        ck.missing(rule + '.dominates', 'additional condition on the row-bounds test of _convert_from_2d not recognised: %s'
+                   % u(_atom_expr(extra[0][0]))[:120])
+    elif extra:
+        x = [x for x in extra if x[2][0] != 'far'][0]
+        ck.bad(rule + '.dominates', mod, x[1], F, u(_atom_expr(x[0]))[:200],
                'the bounds test must be guarded only by `lengths is not None and error_check` and precede the flat-index computation')
+    elif not same and rebound_opaque:
+        ck.missing(rule + '.dominates', 'row / column are rebound between the bounds test and the flat-index computation of _convert_from_2d '
+                   'in a way the rule does not see through')
     elif not same:
         ck.bad(rule + '.dominates', mod, g, F, u(g.test)[:200],
                'row / column are rebound between the bounds test and the flat-index computation: the test does not protect the access')
@@ -435,6 +802,11 @@ def d1_bounds(ck, mod):
             okn = True
     if not okn:
         okn = len(neg) == 1 and fi.cfg.dominates(fi.stmt(neg[0]), outer)
+    if not okn and not neg and any(isinstance(c, ast.Compare) and len(c.ops) == 1 and isinstance(c.ops[0], ast.Lt) and
+                                   const_value(c.comparators[0], None) == 0 for c in walk_local(fn)):
+        # no call to the helper, but the function itself compares indices with 0: normalisation done in place
+        ck.missing(rule + '.negatives-first', 'no call to _handle_negative_indices in _convert_from_2d; the function tests `< 0` itself')
+        return
     ck.check(okn, rule + '.negatives-first', mod, neg[0] if neg else fn, F, u(neg[0])[:200] if neg else '?',
              'negative indices are normalised before the bounds test', 'negative indices must be resolved before the row-bounds test')
 
@@ -473,16 +845,35 @@ def d1_call_sites(ck, mod):
             if isinstance(v, ast.Name) and fi.defs_of_use(v) != {'PARAM'}:
                 ck.missing(rule, 'index of %s in %s has several definitions (%s): cannot be traced to _convert_from_2d' % (u(sub)[:60], q, v.id))
                 continue
+            if isinstance(v, ast.Subscript) and const_value(v.slice, None) == 0 and not isinstance(const_value(v.slice, None), bool):
+                w = fi.resolve(v.value) if isinstance(v.value, ast.Name) else v.value
+                if isinstance(w, ast.Call) and call_name(w) == '_convert_from_2d':
+                    v = w           # the one entry of the 1-tuple that is returned: the same flat positions
             if not (isinstance(v, ast.Call) and call_name(v) == '_convert_from_2d'):
-                ck.bad(rule, mod, sub, q, con, 'flat data must be addressed through _convert_from_2d')
+                unknown = [c for c in ast.walk(v) if isinstance(c, ast.Call) and not (call_name(c) or '').startswith(('np.', 'numpy.'))
+                           and (call_name(c) or '') not in _NEUTRAL]
+                if unknown:
+                    ck.missing(rule, 'index of %s in %s is computed by %s, which the rule does not follow' % (u(sub)[:60], q, u(unknown[0])[:80]))
+                else:
+                    ck.bad(rule, mod, sub, q, con, 'flat data must be addressed through _convert_from_2d')
                 continue
             b = _bind_call(mod, v)
             if b is None:
                 ck.missing(rule, 'arguments of %s in %s not recognised' % (u(v)[:80], q))
                 continue
             ec = b.get(cps[3])
+            if ec is not None:
+                ec = _xc(fi, ec)
             ok = cps[0] in b and cps[1] in b and cps[2] in b and _xu(fi, b[cps[1]]) == '%s.lengths' % selfn and \
                 _xu(fi, b[cps[2]]) == '%s.starts' % selfn and (ec is None or const_value(ec) is True)
+            if not ok:
+                # an argument the rule cannot evaluate (not a constant / not an expression over self): undecided
+                opaque = [e for e in ([ec] if ec is not None and not isinstance(ec, ast.Constant) else []) +
+                          [_xc(fi, b[k]) for k in (cps[1], cps[2]) if k in b]
+                          if not _pure(e) or not all(y.id in {selfn} | _NEUTRAL for y in ast.walk(e) if isinstance(y, ast.Name))]
+                if opaque:
+                    ck.missing(rule, 'argument %s of %s in %s not recognised' % (u(opaque[0])[:60], u(v)[:60], q))
+                    continue
             ck.check(ok, rule, mod, sub, q, con, 'row-bounds-checked flat access',
                      '_convert_from_2d must receive lengths=self.lengths, starts=self.starts and keep error_check at '
                      'its default: without the lengths / with error_check=False an index past the end of a row '
@@ -540,24 +931,75 @@ def d1_negatives(ck, mod):
         ck.missing(rule, '_handle_negative_indices(rows, columns, lengths, starts): parameters not recognised')
         return
     R, Cn, L, S = ps[:4]
-    scope = _local_names(fh)
+    scope = _value_scope(fi, fh)
     guards = [x for x in walk_local(fh) if isinstance(x, ast.If) and any(_raises(y, 'IndexError') for y in x.body)]
+
+    def disjuncts(t):
+        # `if A or B: raise`: each of A, B alone raises
+        if isinstance(t, ast.BoolOp) and isinstance(t.op, ast.Or):
+            return [d for x in t.values for d in disjuncts(x)]
+        return [t]
+
+    def other_updates(dim):
+        # ('op', stmt): an augmented store with another operator (x[neg] %= n); ('opaque', stmt): a store / rebinding the rule
+        # does not read as an offset (x = np.where(x < 0, x + n, x)); coercions (np.array(x), x.reshape(-1)) do not count
+        out = []
+        incs = {id(s_) for s_, _, _ in _increments(fh, dim)}
+        for s_ in walk_local(fh):
+            if id(s_) in incs:
+                continue
+            if isinstance(s_, ast.AugAssign):
+                b_ = s_.target.value if isinstance(s_.target, ast.Subscript) else s_.target
+                if isinstance(b_, ast.Name) and b_.id == dim:
+                    out.append(('op', s_))
+            elif isinstance(s_, ast.Assign):
+                for t_ in s_.targets:
+                    b_ = t_.value if isinstance(t_, ast.Subscript) else t_
+                    if not (isinstance(b_, ast.Name) and b_.id == dim):
+                        continue
+                    if isinstance(t_, ast.Name) and (_strip_array(canon(s_.value)) is not None or
+                                                     match('%s.reshape(__)' % dim, s_.value) is not None or
+                                                     match('np.atleast_1d(%s)' % dim, s_.value) is not None):
+                        continue
+                    out.append(('opaque', s_))
+        return out
+
     for dim in (R, Cn):
-        forms = ['0 < (%s < 0).sum()' % dim, '(%s < 0).any()' % dim, '%s.min() < 0' % dim, '(%s < 0).sum() != 0' % dim, '1 <= (%s < 0).sum()' % dim]
+        forms = ['0 < (%s < 0).sum()' % dim, '(%s < 0).any()' % dim, '%s.min() < 0' % dim, '(%s < 0).sum() != 0' % dim, '1 <= (%s < 0).sum()' % dim,
+                 '0 < np.count_nonzero(%s < 0)' % dim, 'np.count_nonzero(%s < 0) != 0' % dim, 'np.count_nonzero(%s < 0)' % dim, '(%s < 0).sum()' % dim]
         incs = _increments(fh, dim)
-        hit = near = None
+        hit = near = far = None
         for gd in guards:
-            v = _classify(_expand(fi, gd.test), forms, scope)
-            if v[0] == 'match':
-                hit = gd
+            for dj in disjuncts(gd.test):
+                x = _expand(fi, dj)
+                v = _classify(x, forms, scope)
+                if v[0] == 'match':
+                    hit = gd
+                    break
+                if dim in names_loaded(dj) or dim in names_loaded(x):
+                    if v[0] == 'near' and near is None:
+                        near = gd
+                    elif v[0] == 'far' and far is None:
+                        far = gd
+            if hit is not None:
                 break
-            if v[0] == 'near' and dim in names_loaded(gd.test) and near is None:
-                near = gd
         why = 'after adding the length, a still-negative %s must raise IndexError (otherwise it wraps into the previous row)' % dim
         if hit is None:
-            ck.bad(rule, mod, near or fh, F, u(near.test) if near is not None else dim, why)
+            helpers = [c for c in calls_in(fh) if (call_name(c) or '') in mod.functions and dim in names_loaded(c)]
+            if near is not None:
+                ck.bad(rule, mod, near, F, u(near.test), why)
+            elif far is not None:
+                ck.missing(rule, 'condition of the IndexError for `%s` in %s not recognised: %s' % (dim, F, u(far.test)[:120]))
+            elif helpers:
+                ck.missing(rule, '`%s` is handed to %s in %s, which the rule does not follow' % (dim, u(helpers[0])[:80], F))
+            else:
+                ck.bad(rule, mod, fh, F, dim, why)
             continue
         late = [s for s, _, _ in incs if not fi.cfg.reachable(s, hit)]
+        others = other_updates(dim)
+        if not incs and others and all(k == 'opaque' for k, _ in others):
+            ck.missing(rule, 'update of the negative `%s` in %s not recognised as an offset: %s' % (dim, F, u(others[0][1])[:120]))
+            continue
         ck.check(not late and bool(incs), rule, mod, hit, F, u(hit.test),
                  'an index still negative after adding the length raises IndexError',
                  why + ' (the re-test must come after the offset)')
@@ -631,6 +1073,10 @@ def _indices_delegation(mod, fn, fi, slice_param):
                         [a.id if isinstance(a, ast.Name) else None for a in g.args] == names and \
                         all(fi.defs_of_use(a) == {par} for a in g.args):
                     consumer = g
+                elif call_name(g) in ('range', 'np.arange') and len(g.args) == 3 and not g.keywords and consumer is None and \
+                        sorted(a.id if isinstance(a, ast.Name) else '' for a in g.args) == sorted(names) and len(set(names)) == 3 and \
+                        all(fi.defs_of_use(a) == {par} for a in g.args):
+                    consumer = ('permuted', g)
         out.append((c, c.args[0], consumer))
     return out
 
@@ -654,6 +1100,12 @@ def d2_slices(ck, mod):
         if dele and not _reads_slice_fields(fn, sp):
             okd = True
             for c, ln, consumer in dele:
+                if isinstance(consumer, tuple):
+                    ck.bad(rule + '.order', mod, consumer[1], q, 'order of the (start, stop, step) triple of %s in %s' % (u(c)[:60], u(consumer[1])[:60]),
+                           'slice.indices() returns (start, stop, step) in this order; handed to range()/np.arange() in another order the '
+                           'slice selects other elements than the same slice of a list')
+                    okd = False
+                    continue
                 if consumer is None:
                     ck.missing(rule, '%s: result of %s is not handed whole to range()/np.arange()' % (q, u(c)[:80]))
                     okd = False
@@ -851,6 +1303,12 @@ class _Sub(ast.NodeTransformer):
         if isinstance(n.value, ast.Name) and n.value.id == 'INDEX' and const_value(n.slice) in (0, 1) and \
                 not isinstance(const_value(n.slice), bool):
             return ast.Name(id='FIRST' if const_value(n.slice) == 0 else 'SECOND', ctx=ast.Load())
+        if isinstance(n.value, ast.Attribute) and n.value.attr == '_data' and isinstance(n.slice, ast.Subscript) and \
+                const_value(n.slice.slice, None) == 0 and not isinstance(const_value(n.slice.slice, None), bool) and \
+                isinstance(n.slice.value, ast.Call) and call_name(n.slice.value) == '_convert_from_2d':
+            # the conversion returns a 1-tuple (C05.D1.row-bounds.flat): data[(x,)] and data[x] are the same access
+            n.slice = n.slice.value
+            return n
         if self.nd and isinstance(n.value, ast.Attribute) and n.value.attr == 'shape' and const_value(n.slice) == 0 and \
                 not isinstance(const_value(n.slice), bool) and isinstance(n.ctx, ast.Load) and u(n.value.value) in self.nd:
             return ast.Call(func=ast.Name(id='len', ctx=ast.Load()), args=[n.value.value], keywords=[])
@@ -863,6 +1321,10 @@ class _Sub(ast.NodeTransformer):
             ps = params(f)
             if len(n.args) <= len(ps):
                 kws = [ast.keyword(arg=ps[i], value=a) for i, a in enumerate(n.args)] + list(n.keywords)
+                # an argument that spells out the parameter's constant default is the call without it
+                kws = [k for k in kws if not (isinstance(k.value, ast.Constant) and isinstance(param_default(f, k.arg), ast.Constant) and
+                                              type(k.value.value) is type(param_default(f, k.arg).value) and
+                                              k.value.value == param_default(f, k.arg).value)]
                 n.args = []
                 n.keywords = sorted(kws, key=lambda k: k.arg)
         return n
@@ -1485,9 +1947,16 @@ def d4_index_space(ck, mod):
             e = _xc(fi, node.args[1])
             if isinstance(e, ast.Subscript) and isinstance(e.value, ast.Name) and e.value.id in rowidx:
                 state['stops'].add(e.value.id)
-        if isinstance(node, ast.Call) and call_name(node) in ('np.arange', 'range') and env and len(node.args) == 1 and \
-                isinstance(node.args[0], ast.Starred) and not node.keywords:
-            b = match('%s.indices(_A)' % sl, node.args[0].value)
+        if isinstance(node, ast.Call) and call_name(node) in ('np.arange', 'range') and env and not node.keywords:
+            # the slice protocol: range(*sl.indices(n)), or start/stop/step unpacked from ONE sl.indices(n) in order
+            b = None
+            if len(node.args) == 1 and isinstance(node.args[0], ast.Starred):
+                b = match('%s.indices(_A)' % sl, _xc(fi, node.args[0].value))
+            elif len(node.args) == 3 and not any(isinstance(a, ast.Starred) for a in node.args):
+                xs = [_xc(fi, a) for a in node.args]
+                if all(isinstance(x, ast.Subscript) and const_value(x.slice, None) == i and not isinstance(const_value(x.slice, None), bool)
+                       for i, x in enumerate(xs)) and len({u(x.value) for x in xs}) == 1:
+                    b = match('%s.indices(_A)' % sl, xs[0].value)
             if b is not None:
                 a = _xc(fi, b['_A'])
                 if isinstance(a, ast.Subscript) and isinstance(a.value, ast.Name) and a.value.id == lengths:
@@ -1506,7 +1975,20 @@ def d4_index_space(ck, mod):
             x = _xc(fi, e)
             inner = _strip_array(x)       # np.asarray(rows, dtype=int): the same row ids
             return u(inner if inner is not None else x)
-        okr = [c for c in reps if unwrapped(c.args[0]) == rows and _xu(fi, c.args[1]) in persel - {rows}]
+
+        def per_position_counts(e):
+            # one count per selected row, in selection order: a per-selection sequence by name, or an
+            # elementwise list / integer array over the selection or over a per-selection sequence
+            if isinstance(e, ast.Name) and e.id in persel - {rows}:
+                return True
+            if _xu(fi, e) in persel - {rows}:
+                return True
+            ew = _elementwise(fi, e)
+            if ew is None:
+                return False
+            d = ew[0]
+            return (isinstance(d, ast.Name) and d.id in persel) or _xu(fi, d) in persel
+        okr = [c for c in reps if unwrapped(c.args[0]) == rows and per_position_counts(c.args[1])]
         if okr:
             ck.ok(rule + '.repeat', mod, okr[0], u(okr[0]), 'row ids repeated by the per-position column counts')
         else:
@@ -1563,14 +2045,21 @@ def d4_index_space(ck, mod):
         elif vi[0] == 'far' or (vi[0] == 'match' and not _pure(val)):
             ck.missing(rule + '.clip', 'store into the stop array not recognised: %s' % u(s)[:120])
             done = True
+        elif vi[0] == 'near' and lengths not in names_loaded(I) and lengths not in names_loaded(val):
+            continue        # a store that does not involve the lengths: not the upper clip (e.g. a lower clamp at 0)
         else:
             ck.bad(rule + '.clip', mod, s, F, u(s), why)
             done = True
     if not done:
         mins = [s for s in assigns_to(fn, ST) if isinstance(s, ast.Assign) and
                 any(match(p, s.value) is not None for p in ('np.minimum(%s, __)' % lengths, 'np.minimum(__, %s)' % lengths))]
+        other = [c for c in calls_in(fn) if (call_name(c) or '') in ('np.clip', 'np.where', 'np.minimum', 'min', 'np.fmin', 'np.putmask', 'np.copyto')
+                 and {ST, lengths} <= names_loaded(c)] + \
+                [c for c in calls_in(fn) if isinstance(c.func, ast.Attribute) and c.func.attr in ('clip', 'minimum') and {ST, lengths} <= names_loaded(c)]
         if mins and (first_loop is None or fi.cfg.dominates(mins[-1], first_loop)):
             ck.ok(rule + '.clip', mod, mins[-1], u(mins[-1]), 'stops beyond a row are clipped to that row\'s length')
+        elif other:
+            ck.missing(rule + '.clip', 'limiting of the stops to the row lengths not recognised: %s' % u(other[0])[:120])
         else:
             ck.bad(rule + '.clip', mod, fn, F, 'clip', why)
 
@@ -1616,37 +2105,93 @@ def d5_where(ck, mod):
         ck.missing(rule, '_convert_from_1d(flat index, lengths, starts): parameters not recognised')
         return
     P0, L, S = ps[:3]
-    scope = _local_names(fn)
+    # operands whose value the expression shows: not the lists under construction
+    scope = _value_scope(fi, fn)
     rets = [r for r in returns_of(fn) if r.value is not None]
     n = 0
+    # row of ONE flat index (ELEM); starts are ascending (prefix sums of positive lengths), so
+    # "last start <= index" = "number of starts <= index, minus one" = right bisection minus one
+    row_forms = [x % {'S': S, 'E': ELEM} for x in (
+        'np.where(%(S)s <= %(E)s)[0][-1]', 'np.where(%(S)s <= %(E)s)[0].max()', 'np.nonzero(%(S)s <= %(E)s)[0][-1]',
+        '(%(S)s <= %(E)s).nonzero()[0][-1]', 'np.nonzero(%(S)s <= %(E)s)[0].max()', '(%(S)s <= %(E)s).nonzero()[0].max()',
+        'np.searchsorted(%(S)s, %(E)s, side="right") - 1', '%(S)s.searchsorted(%(E)s, side="right") - 1',
+        'bisect.bisect_right(%(S)s, %(E)s) - 1', 'bisect.bisect(%(S)s, %(E)s) - 1',
+        '(%(S)s <= %(E)s).sum() - 1', 'np.count_nonzero(%(S)s <= %(E)s) - 1', 'len(np.where(%(S)s <= %(E)s)[0]) - 1')]
+    why_r = 'row must be np.where(starts <= ii)[0][-1] (< loses the first element of each row)'
+    why_c = 'column must be iis_flat[k] - starts[row[k]]'
+
+    def flat_ok(e):
+        # the flat index set: <first parameter>[0], possibly under a name
+        if isinstance(e, ast.Name):
+            e = fi.resolve(e)
+        return u(e) == '%s[0]' % P0
+
+    def listlike(x):
+        return isinstance(x, (ast.ListComp, ast.GeneratorExp)) or _list_valued(x) or \
+            (_strip_array(x) is not None and listlike(_strip_array(x)))
+
+    def as_index(e):
+        # np.array(X, dtype=int) -> X  (through temporaries; the result is an original node)
+        p = _peel(fi, e)
+        inner = _strip_array(p)
+        return inner if inner is not None else None
+
     for r in rets:
         if not (isinstance(r.value, ast.Tuple) and len(r.value.elts) == 2):
             ck.missing(rule, 'return value of _convert_from_1d is not a (rows, columns) pair: %s' % u(r.value)[:100])
             continue
-        er, ec = (_strip_array(x) for x in r.value.elts)
+        er, ec = (as_index(x) for x in r.value.elts)
         if er is None or ec is None:
             er, ec = r.value.elts
         n += 1
-        rname = er.id if isinstance(er, ast.Name) else None
-        # the flat index set: <first parameter>[0], possibly under a name
-        def flat_ok(e):
-            if isinstance(e, ast.Name):
-                e = fi.resolve(e)
-            return u(e) == '%s[0]' % P0
-        xr = _xc(fi, er)
-        v = _classify(xr, ['[np.where(%s <= _I)[0][-1] for _I in _F]' % S, '[np.where(%s <= _I)[0].max() for _I in _F]' % S,
-                           'np.searchsorted(%s, _F, side="right") - 1' % S, '[np.searchsorted(%s, _I, side="right") - 1 for _I in _F]' % S], scope)
-        if v[0] == 'match':
-            Fx = v[1]['_F']
-            if not (flat_ok(Fx) or (isinstance(Fx, ast.Name) and any(u(a.value) == '%s[0]' % P0 for a in assigns_to(fn, Fx.id) if isinstance(a, ast.Assign)))):
+        # --- rows
+        ew = _elementwise(fi, er)
+        if ew is not None:
+            # a python list filled position by position (comprehension, append loop, fused loop, zip / enumerate re-indexing)
+            dom, f = ew
+            fx = _xc(fi, f)
+            v = _classify(fx, row_forms, scope)
+            if v[0] == 'match' and not flat_ok(dom):
                 v = ('far', 1, None)
-        ck.decide(v, rule, mod, r, F, 'rows: %s' % u(xr)[:180],
-                  'row of a flat index = LAST row whose start is <= the index', 'row must be np.where(starts <= ii)[0][-1] (< loses the first element of each row)')
-        xc_ = _xc(fi, ec, stop=(rname,) if rname else ())
-        Rn = rname or '_R'
-        v = _classify(xc_, ['[_F[_K] - %s[%s[_K]] for _K in range(len(_F))]' % (S, Rn), '[_X - %s[_Y] for _X, _Y in zip(_F, %s)]' % (S, Rn),
-                            '_F - %s[%s]' % (S, Rn), '[_F[_K] - %s[_Y] for _K, _Y in enumerate(%s)]' % (S, Rn)], scope)
-        ck.decide(v, rule, mod, r, F, 'columns: %s' % u(xc_)[:180], 'column = flat index - start of its row', 'column must be iis_flat[k] - starts[row[k]]')
+            ck.decide(v, rule, mod, r, F, 'rows: entry for the flat index %s of %s = %s' % (ELEM, u(dom)[:40], u(fx)[:140]),
+                      'row of a flat index = LAST row whose start is <= the index', why_r)
+        else:
+            xr = _xc(fi, er)
+            v = _classify(xr, ['np.searchsorted(%s, _F, side="right") - 1' % S, '%s.searchsorted(_F, side="right") - 1' % S], scope)
+            if v[0] == 'near' and listlike(xr):
+                v = ('far', v[1], v[2])       # a list built in a way the elementwise view does not cover
+            if v[0] == 'match':
+                Fx = v[1]['_F']
+                Fx = _strip_array(Fx) or Fx   # integer index array of the same positions
+                if not (flat_ok(Fx) or (isinstance(Fx, ast.Name) and any(u(a.value) == '%s[0]' % P0 for a in assigns_to(fn, Fx.id) if isinstance(a, ast.Assign)))):
+                    v = ('far', 1, None)
+            ck.decide(v, rule, mod, r, F, 'rows: %s' % u(xr)[:180], 'row of a flat index = LAST row whose start is <= the index', why_r)
+        # --- columns
+        cw = _elementwise(fi, ec)
+        if cw is not None:
+            dom, f = cw
+            fx = _xc(fi, f)
+            v = _classify(fx, ['%s - %s[%s]' % (ELEM, S, rf) for rf in row_forms], scope)
+            if v[0] == 'match' and not flat_ok(dom):
+                v = ('far', 1, None)
+            ck.decide(v, rule, mod, r, F, 'columns: entry for the flat index %s of %s = %s' % (ELEM, u(dom)[:40], u(fx)[:140]),
+                      'column = flat index - start of its row', why_c)
+        else:
+            # vectorised: <flat> - starts[<the rows that are returned>]
+            rname = er.id if isinstance(er, ast.Name) else None
+            xc_ = _xc(fi, ec, stop=(rname,) if rname else ())
+            Rn = rname or '_R'
+            v = _classify(xc_, ['_F - %s[%s]' % (S, Rn), '_F - %s[np.array(%s, dtype=int)]' % (S, Rn), '_F - %s[np.asarray(%s, dtype=int)]' % (S, Rn)], scope)
+            if v[0] == 'near' and listlike(xc_):
+                v = ('far', v[1], v[2])
+            if v[0] == 'match':
+                Fx = v[1]['_F']
+                Fx = _strip_array(Fx) or Fx
+                Rx = v[1].get('_R')
+                if not (flat_ok(Fx) or (isinstance(Fx, ast.Name) and any(u(a.value) == '%s[0]' % P0 for a in assigns_to(fn, Fx.id) if isinstance(a, ast.Assign)))) \
+                        or (Rx is not None and u(Rx) not in (u(_xc(fi, er)), u(_xc(fi, r.value.elts[0])))):
+                    v = ('far', 1, None)
+            ck.decide(v, rule, mod, r, F, 'columns: %s' % u(xc_)[:180], 'column = flat index - start of its row', why_c)
     ck.floor(rule, n, 1, 'return of the (rows, columns) pair')
     # starts: exclusive prefix sums of the lengths, wherever they are derived
     for q in (F, '_convert_from_2d'):
@@ -1686,7 +2231,8 @@ def d5_where(ck, mod):
     M = params(fw)[0]
     cs = [c for c in calls_in(fw) if call_name(c) == F]
     if not cs:
-        ck.bad(rule + '.where', mod, fw, 'where', 'np.where(mask._data) -> _convert_from_1d(..., starts=mask.starts)', 'where must convert np.where(mask._data) with mask.starts')
+        # re-expressed without the conversion helper: the rule has nothing to compare
+        ck.missing(rule + '.where', 'call of _convert_from_1d in where()')
     for c in cs:
         b = _bind_call(mod, c) or {}
         a0 = b.get(P0)
@@ -1955,11 +2501,12 @@ def d7_constructor_and_lists(ck, mod, container=True):
             gforms = ['(%s == %s[0]).all()' % (LP, LP), 'not (%s != %s[0]).any()' % (LP, LP), 'not (%s - %s[0]).any()' % (LP, LP),
                       'len(set(%s)) == 1' % LP, '(%s[0] == %s).all()' % (LP, LP), 'len(np.unique(%s)) == 1' % LP]
             verdicts = []
-            for a, node in _atoms(_path_conditions(mod, s, fn)):
+            for a, node in _xatoms(fi, _path_conditions(mod, s, fn)):
                 e = _atom_expr(a)
-                if not _uses_beyond_none(e, LP):
+                xe = _expand(fi, e)
+                if not _uses_beyond_none(xe, LP):
                     continue
-                verdicts.append((_classify(_expand(fi, e), gforms, {LP}), node, e))
+                verdicts.append((_classify(xe, gforms, {LP}), node, e))
             hit = [x for x in verdicts if x[0][0] == 'match']
             near = [x for x in verdicts if x[0][0] == 'near']
             gwhy = 'the reshape fast path must be guarded by np.all(lengths == lengths[0])'
